@@ -269,8 +269,7 @@ class Parser(object):
             if 'multiplier' in unit_element:
                 expr = '(%s * %s)' % (unit_element['multiplier'], expr)
 
-            if 'offset' in unit_element and (not unit_element['offset'].strip().isnumeric() or
-                                             int(unit_element['offset']) != 0):
+            if 'offset' in unit_element and float(unit_element['offset']) != 0:
                 raise ValueError('Offsets in units are not supported!')
 
             # Collect/add this particular <unit> definition
